@@ -176,7 +176,7 @@ def staleReason (s : Sess) (q : ReqJ) (view : List (Path × Nat)) (f : FileJ) : 
   | some (_, i) =>
     if i == f.tree then none
     else if i == f.diskTree then
-      if s.mode == "single" && f.path != q.cur && (f.how == "open-diff" || f.how == "changed" || f.how == "changed-ranged") then
+      if s.mode == "single" && f.path != q.cur && (f.how == "open-diff" || f.how == "changed" || f.how == "changed-ranged" || f.how == "changed-neutral") then
         some "unsaved-include-not-seen"
       else if s.mode == "ws" && f.how == "open-diff" then some "didopen-stale-workspace"
       else some "?"
